@@ -156,6 +156,11 @@ Proof.
   split; [auto|]. split; [intros _; apply rtree_okb_ok; reflexivity|exact tri_premise].
 Qed.
 
+(* … so do the hypotheses of the tree-variant statement (one candidate, a lookup that reports it) … *)
+Example C04c_trees_nonvacuous :
+  create_index tri_g tri_roots = Some tri_fi /\ lookup_premise tri_g tri_w tri_fi tri_cands tri_lookup.
+Proof. exact (conj tri_index tri_lookup_premise). Qed.
+
 (* … and on the graph of the refutation the model computes: weight 15 with the two different orders, the minimum
    12 when both ranks use the same order and for the fixed code (hidden-edge branch, reduce over 2 ranks) *)
 Example C04_fix_removes_the_witness :
